@@ -1,9 +1,9 @@
 INIT Init
 NEXT MCNext
 CONSTANTS
-  Accepts <- MCAccepts
-  ExtraHandlers <- MCExtra
-  Errors <- MCErrorsQ
+  Accepts <- MCClassAccepts
+  ExtraHandlers <- MCClassExtra
+  Errors <- MCClassErrors
 INVARIANT OwnStatusAndVary
 INVARIANT OwnHeadersSent
 INVARIANT ToDictHonoured
